@@ -371,6 +371,7 @@ type HarnessResult struct {
 	SolverSec    float64
 	SolverErrs   int
 	CrossChecked int
+	Retried      int // queries answered only after a retry with a longer time limit
 	NonTrivial   int64 // paths with >=1 symbolic decision that reached >=1 check
 	Unreached    []string
 }
@@ -405,6 +406,7 @@ func (P *Program) Explore(fn *ssa.Function, o Options) *HarnessResult {
 					hr.SolverSec += w.Solver.Seconds
 					hr.SolverErrs += w.Solver.Errors
 					hr.CrossChecked += w.Solver.CrossN
+					hr.Retried += w.Solver.Retries
 					if w.Solver.Errors > 0 {
 						hr.Incomplete = append(hr.Incomplete, "solver error: "+trunc(w.Solver.LastErr, 300))
 					}
